@@ -533,3 +533,19 @@ Definition raw_undefined (d : gv) (p : list step) (raw : bool) : bool :=
 Definition dom_C11 (d : gv) (p : list step) (raw : bool) : bool :=
   names_ok d p && shape_ok d p && fold_free d p
   && negb (top_method d p) && negb (raw_undefined d p raw).
+
+(* ================================================================== histories
+   The renders one process performs one after the other (on one engine or several). The Go code keeps no table that
+   outlives one converted value: Map.items belongs to the *Map that one render made for one value, and neither the
+   package nor the Engine holds anything derived from page data. So M keeps nothing between two renders either, and
+   the model of a history is the model of each of its renders; S likewise reads every value on its own. *)
+Definition render_req : Type := (gv * list step * bool)%type.
+
+Definition run_history (h : list render_req) : list (res bytes) :=
+  map (fun x => match x with (d, p, raw) => run d p raw end) h.
+
+Definition spec_history (h : list render_req) : list (res bytes) :=
+  map (fun x => match x with (d, p, raw) => ROk (render raw (leaf_text (go_path d p))) end) h.
+
+Definition dom_history (h : list render_req) : bool :=
+  forallb (fun x => match x with (d, p, raw) => dom_C11 d p raw end) h.
